@@ -69,6 +69,9 @@ func NextSerial() *big.Int {
 	}
 	b[0] |= 0x40
 	b[0] &= 0x7f
+	if b[1]&7 == 0 { // one in eight: a serial whose top octet is below 0x10 (odd number of hex digits)
+		b[0] = 1 + b[2]&0x0e
+	}
 	return new(big.Int).SetBytes(b)
 }
 
